@@ -57,6 +57,9 @@ enum Role {
     TickArray(usize, i32),
     /// (pool, position index)
     Position(usize, usize),
+    /// the position slot of an instruction that takes no position token account (update_fees_and_rewards): anyone may refresh any
+    /// position, so another position of the SAME pool is a legitimate argument
+    PositionFree(usize, usize),
     PositionTa(usize, usize),
     Oracle(usize),
     Config,
@@ -77,7 +80,7 @@ impl Role {
             Role::Mint(_) => "mint",
             Role::Acct(..) => "token_account",
             Role::TickArray(..) => "tick_array",
-            Role::Position(..) => "position",
+            Role::Position(..) | Role::PositionFree(..) => "position",
             Role::PositionTa(..) => "position_token_account",
             Role::Oracle(_) => "oracle",
             Role::Config => "config",
@@ -102,7 +105,7 @@ fn orig(role: &Role, u: &Uni, l: &Ledger) -> Pubkey {
         Role::Mint(id) => u.mint(*id),
         Role::Acct(party, id) => u.party(party).of(&u.mint(*id)),
         Role::TickArray(p, s) => u.pools[*p].tick_array(*s),
-        Role::Position(p, i) => u.pos[*p][*i].addr,
+        Role::Position(p, i) | Role::PositionFree(p, i) => u.pos[*p][*i].addr,
         Role::PositionTa(p, i) => u.pos[*p][*i].token_account,
         Role::Oracle(p) => u.pools[*p].oracle,
         Role::Config => u.cfg.addr,
@@ -179,6 +182,18 @@ fn subs(role: &Role, u1: &Uni, u2: &Uni, l: &Ledger) -> Vec<Sub> {
             must(u2.pools[*p].tick_array(*s), "U2 counterpart tick array (same start index)".into());
             for q in others(*p) {
                 must(u1.pools[q].tick_array(*s), format!("tick array of U1 sibling pool {} (same start index)", POOL_NAMES[q]));
+            }
+        }
+        Role::PositionFree(p, i) => {
+            must(u2.pos[*p][*i].addr, "U2 counterpart position".into());
+            for q in others(*p) {
+                must(u1.pos[q][*i].addr, format!("position {i} of U1 sibling pool {}", POOL_NAMES[q]));
+                for e in u1.empty[q].iter() {
+                    must(e.addr, format!("EMPTY position of U1 sibling pool {}", POOL_NAMES[q]));
+                }
+            }
+            for j in (0..u1.pos[*p].len()).filter(|j| j != i) {
+                v.push(Sub { key: u1.pos[*p][j].addr, what: format!("position {j} of the same pool"), expect: Expect::Free(FREE_REFRESH) });
             }
         }
         Role::Position(p, i) | Role::PositionTa(p, i) => {
@@ -648,6 +663,20 @@ fn case_collect_reward(l: &Ledger, u: &Uni, p: usize, i: usize, idx: usize, v2: 
     Case { ins, name: format!("{ins}[{},pos{i},reward{idx}]", POOL_NAMES[p]), ix, slots }
 }
 
+/// update_fees_and_rewards: moves no funds itself, but writes the amounts the collect instructions later pay out — computed from
+/// the growth counters of whatever pool account it is given.
+fn case_update_fees(u: &Uni, p: usize, i: usize) -> Case {
+    let pos = &u.pos[p][i];
+    let ix = ix_update_fees_and_rewards(pos);
+    let slots = vec![
+        (s("whirlpool"), Role::Pool(p)),
+        (s("position"), Role::PositionFree(p, i)),
+        (s("tick_array_lower"), Role::TickArray(p, u.pools[p].array_start(pos.lower))),
+        (s("tick_array_upper"), Role::TickArray(p, u.pools[p].array_start(pos.upper))),
+    ];
+    Case { ins: "update_fees_and_rewards", name: format!("update_fees_and_rewards[{},pos{i}]", POOL_NAMES[p]), ix, slots }
+}
+
 /// set_reward_emissions(_v2): moves no funds, but its vault slot decides whether "the vault holds a day of emissions" is checked
 /// against the right account ("a reward vault of another reward index" is named in the statement).
 fn case_set_reward_emissions(u: &Uni, p: usize, idx: usize, v2: bool) -> Case {
@@ -730,6 +759,9 @@ fn cases(l: &Ledger, u: &Uni, v: Variant, thorough: bool) -> Vec<Case> {
                     out.push(case_liquidity(u, p, i, Liq::IncByAmounts, true));
                 }
                 out.push(case_collect_fees(u, p, i, v2));
+                if v2 {
+                    out.push(case_update_fees(u, p, i));
+                }
                 for idx in 0..3 {
                     if !thorough && i != 0 && idx != 1 {
                         continue;
@@ -808,14 +840,15 @@ struct Multi {
     expect: Expect,
 }
 
+const FREE_REFRESH: &str = "update_fees_and_rewards is permissionless bookkeeping: another position of the SAME pool (whose bounds lie in the named tick arrays) is a legitimate argument; with other arrays the instruction fails on its own";
 const FREE_SAME_POOL_POSITION: &str = "another position of the SAME pool together with its own token account, held by the same signing authority: a legitimate instruction on that position";
 
 fn multis(c: &Case, u1: &Uni, u2: &Uni, l: &Ledger) -> Vec<Multi> {
     let mut out = vec![];
     let find = |pred: &dyn Fn(&Role) -> bool| c.slots.iter().position(|(_, r)| pred(r));
     // (position, position_token_account)
-    if let Some(ip) = find(&|r| matches!(r, Role::Position(..))) {
-        let it = find(&|r| matches!(r, Role::PositionTa(..))).expect("position token account slot");
+    // (instructions without a position token account slot — update_fees_and_rewards — have no such group)
+    if let (Some(ip), Some(it)) = (find(&|r| matches!(r, Role::Position(..))), find(&|r| matches!(r, Role::PositionTa(..)))) {
         let Role::Position(p, i) = c.slots[ip].1.clone() else { unreachable!() };
         // the arrays named by the instruction must still fit, so only positions with the same range are paired
         let same_range = |a: &PosRef, b: &PosRef| a.lower == b.lower && a.upper == b.upper;
@@ -1001,6 +1034,16 @@ pub fn run(ctx: &Ctx) -> Report {
                     exhaustive = false;
                     break 'outer;
                 }
+                // update_fees_and_rewards only changes something once time has passed since the last accrual: judge it a minute later
+                let later;
+                let l = if c.ins == "update_fees_and_rewards" {
+                    let mut t = l.clone();
+                    t.unix_ts += 60;
+                    later = t;
+                    &later
+                } else {
+                    l
+                };
                 let row = rows.entry(c.ins).or_default();
                 row.slots = row.slots.max(c.slots.len());
                 // the slot table must describe the instruction that is executed
